@@ -25,5 +25,6 @@ CONSTANTS
   ObjOf <- objA
   ActOf <- actA
   Raws <- rawA2
-INVARIANTS Export AtMostOneOutcome OwnResult ExecOnceIfOk ExecAtMostOnce PostAtMostOnce PostNoResponse OnlyCallAndPostExecute
+  Deviations <- NoDev
+INVARIANTS Export AtMostOneOutcome OwnResult ExecOnceIfOk ExecAtMostOnce PostAtMostOnce PostNoResponse FramesOwed OnlyCallAndPostExecute
 CHECK_DEADLOCK FALSE
